@@ -10,6 +10,13 @@ SPEC = Spec(
         Harness(name="refcount", module="internal/memorylimiter", pkg="internal/memorylimiter",
                 files={"zz_verif_c18_limiter_test.go": "c18/limiter_test.go"},
                 test="TestVerifC18RC", driver="drv_c18", go="go1.26", n={"quick": 2000, "thorough": 20000}),
+        # native goroutines, real time: the atomicity of Start/Shutdown (refCounterLock) that the label model assumes; monitor only
+        Harness(name="stress", module="internal/memorylimiter", pkg="internal/memorylimiter",
+                files={"zz_verif_c18_stress_test.go": "c18/stress_test.go"},
+                test="TestVerifC18Stress", driver=None, n={"quick": 12, "thorough": 150}),
+        Harness(name="stress-race", module="internal/memorylimiter", pkg="internal/memorylimiter",
+                files={"zz_verif_c18_stress_test.go": "c18/stress_test.go"},
+                test="TestVerifC18Stress", driver=None, race=True, n={"quick": 2, "thorough": 60}, timeout_s=1500),
         Harness(name="processor", module="processor/memorylimiterprocessor", pkg="processor/memorylimiterprocessor",
                 files={"zz_verif_c18_processor_test.go": "c18/processor_test.go"},
                 test="TestVerifC18Proc", driver="drv_c18", n={"quick": 600, "thorough": 6000}),
@@ -24,8 +31,10 @@ SPEC = Spec(
          "random; GC effect independent; time steps at both min intervals -1/0/+1; GC durations 0..1 s); observed: usageChecker limit/spike, "
          "MustRefuse, GC calls, lastGCDone. non-trivial = a GC ran or the mode changed at least twice. thorough adds every abstract history "
          "of length <=4 over region{below,soft,hard} x gc-helps x dt{short,between,long}. refcount: start/shutdown/tick sequences (1-16 ops, "
-         "any number of sharers) on one real MemoryLimiter under synctest; after each op 1.5 check intervals pass with a scripted reading "
-         "and we observe whether memory was read and MustRefuse afterwards (the ticker-driven loop, model Sys.step); right after every start / shutdown - "
+         "any number of sharers) on one real MemoryLimiter under synctest; after each op a window of 1, 1.5 or 2.5 check intervals passes "
+         "with a scripted reading and GC effect, under a GC configuration that is never due / always due / due after 2.5 s (soft) 1.5 s (hard); "
+         "observed and diffed exactly: the NUMBER of checks, reads and forced GCs the monitoring goroutine made in the window (model "
+         "Timed.window: ticker instants armedAt + k*check_interval, re-armed by a restart) and MustRefuse afterwards; right after every start / shutdown - "
          "before any time passes - MustRefuse is observed again: no reading was taken, so it must still be the verdict of the most recent "
          "measurement (Go viol + Lean oracle checkMode, signature C18/shared/refusal-changed-without-a-measurement/<op>); panics of "
          "Start/Shutdown are recovered inside the bubble and reported with the case as replay; corpus: start,shutdown,start; two and "
@@ -53,6 +62,13 @@ SPEC = Spec(
     assumptions=[
         "percentage mode: total memory < 2^57 bytes (larger totals overflow percentage*total in uint64; hypothesis of C18_no_underflow)",
         "CheckMemLimits calls are sequential (one monitoring goroutine; direct calls are not concurrent with it)",
+        "Start / Shutdown are atomic steps of the label model (sequentialised histories) because the code holds refCounterLock; this is "
+        "exercised, not proved: harnesses stress / stress-race run 2-8 native goroutines doing Start...Shutdown pairs in real time (with "
+        "-race in stress-race) and require every paired Shutdown to succeed, a final count of 0, ErrShutdownNotStarted afterwards and no "
+        "reads after the last Shutdown",
+        "the consume / extension theorems (C18_consume_*, C18_consumeFull_*, C18_consume_forwards_empty, C18_extension_refuses_iff) restate the "
+        "model's definitions (rfl/simp); they are differential-backed facts: their weight is the exact diff of consumeFull incl. four counters "
+        "against the real processors",
         "the theorems are about the repaired Start (fix commit in /tmp/wt-C18: ticker.Reset on the 0->1 transition); the pinned Start is "
         "modelled as RC.stepPinned with the kernel-checked counterexample C18_refcount_pinned_full_fails",
     ],
